@@ -278,7 +278,7 @@ class Engine:
 
     # ---------------------------------------------------------------- relevance slicing
     MODELLED = re.compile(r"(::len$|as Deref>::deref$|as DerefMut>::deref_mut$|as AsRef<.*>>::as_ref$|::as_slice$|::as_path$|cmp::min::|cmp::max::|"
-                          r"::saturating_sub$|::saturating_add$|as Try>::branch$|as FromResidual<.*>>::from_residual$|as Iterator>::position::<|"
+                          r"::saturating_sub$|::saturating_add$|::max_value$|as Try>::branch$|as FromResidual<.*>>::from_residual$|as Iterator>::position::<|"
                           r"::iter$|as Index<.*>>::index$|as IntoIterator>::into_iter$|as Iterator>::enumerate$|as Iterator>::next$|as Partial(Eq|Ord)>::(eq|ne|ge|gt|le|lt)$)")
 
     def compute_tracked(self, seeds, extra_modelled=None):
@@ -412,9 +412,19 @@ class Engine:
                     locs = re.findall(r"_\d+", m.group(2))
                     if locs:
                         borrow.setdefault(m.group(1), set()).add(locs[0])
-                m = re.match(r"(_\d+) = (?:copy|move) (_\d+)$", s)
-                if m and m.group(2) in borrow:
-                    borrow.setdefault(m.group(1), set()).update(borrow[m.group(2)])
+        # references travel through copies, moves and aggregates (flow-insensitive fixpoint)
+        changed_b = True
+        while changed_b:
+            changed_b = False
+            for bb, stmts in self.fn.blocks.items():
+                for s in stmts:
+                    m = re.match(r"(_\d+) = (.*)$", s)
+                    if not m or m.group(2).startswith("&"):
+                        continue
+                    for loc in re.findall(r"_\d+", m.group(2)):
+                        if loc in borrow and not borrow[loc] <= borrow.get(m.group(1), set()):
+                            borrow.setdefault(m.group(1), set()).update(borrow[loc])
+                            changed_b = True
 
         def with_borrows(locs):
             out = set(locs)
@@ -450,6 +460,15 @@ class Engine:
                 um = re.search(r"unwind: (bb\d+)", last)
                 if um and um.group(1) in succ[bb]:
                     succ[bb] = [t for t in succ[bb] if t != um.group(1)] + ([um.group(1)] if len(re.findall(um.group(1), last)) > 1 else [])
+        # a local whose address escapes into an aggregate (e.g. the argument tuple of format_args!) is never pruned
+        escaped = set()
+        for bb, stmts in self.fn.blocks.items():
+            for s in stmts:
+                if re.match(r"(_\d+) = &(?:raw (?:const|mut) )?(?:mut )?_\d+$", s):
+                    continue
+                for loc in re.findall(r"&(?:raw (?:const|mut) )?(?:mut )?(_\d+)\b", s):
+                    escaped.add(loc)
+        self.escaped = escaped
         live = {bb: set() for bb in self.fn.blocks}
         changed = True
         while changed:
@@ -469,7 +488,7 @@ class Engine:
         live = self.live_in.get(bb)
         if live is None:
             return
-        live = live | {"_0"}
+        live = live | {"_0"} | getattr(self, "escaped", set())
         keep = {}
         roots = []
         for k, v in st.store.items():
@@ -1113,6 +1132,10 @@ class Engine:
             a, b = argv[0][0], argv[1][0]
             if z3.is_bv(a) and z3.is_bv(b):
                 return z3.If(z3.UGE(a, b), a - b, z3.BitVecVal(0, a.size()))
+        if re.search(r"<impl (isize|i64)>::max_value$", c) or re.search(r"<impl (isize|i64)>::max$", c):
+            return z3.BitVecVal(2 ** 63 - 1, 64)
+        if re.search(r"<impl (usize|u64)>::max_value$", c):
+            return z3.BitVecVal(2 ** 64 - 1, 64)
         if c.endswith("::saturating_add"):
             a, b = argv[0][0], argv[1][0]
             if z3.is_bv(a) and z3.is_bv(b):
